@@ -18,6 +18,17 @@ import (
 type sqlTxState struct {
 	done bool
 	ctx  iface
+	id   int // 1, 2, ... in order of Begin; zzverif.SQLTx() reports it to the hook
+}
+
+// sqlHookTx runs the hook on behalf of transaction st (nil: no transaction).
+func (i *interpreter) sqlHookTx(fr *frame, st *sqlTxState, op string, query value, args value) iface {
+	id := 0
+	if st != nil {
+		id = st.id
+	}
+	i.side["sqlcur"] = id
+	return i.sqlHook(fr, op, query, args)
 }
 
 func (i *interpreter) sqlHook(fr *frame, op string, query value, args value) iface {
@@ -58,7 +69,10 @@ func (i *interpreter) sqlTx(p *value) *sqlTxState {
 	}
 	st := tab[p]
 	if st == nil {
-		st = &sqlTxState{}
+		n, _ := i.side["sqltxn"].(int)
+		n++
+		i.side["sqltxn"] = n
+		st = &sqlTxState{id: n}
 		tab[p] = st
 	}
 	return st
@@ -83,7 +97,7 @@ func (i *interpreter) txLive(fr *frame, p *value) iface {
 	if e := i.ctxErr(fr, st.ctx); e.t != nil {
 		// database/sql rolls a transaction back when its context ends
 		st.done = true
-		i.sqlHook(fr, "rollback", nil, nil)
+		i.sqlHookTx(fr, st, "rollback", nil, nil)
 		return e
 	}
 	return iface{}
@@ -99,7 +113,7 @@ func (i *interpreter) sqlSweep(fr *frame) {
 		}
 		if e := i.ctxErr(fr, st.ctx); e.t != nil {
 			st.done = true
-			i.sqlHook(fr, "rollback", nil, nil)
+			i.sqlHookTx(fr, st, "rollback", nil, nil)
 		}
 	}
 }
@@ -131,13 +145,14 @@ func init() {
 		if e := i.ctxErr(fr, ctx); e.t != nil {
 			return tuple{(*value)(nil), e}
 		}
-		if e := i.sqlHook(fr, "begin", nil, nil); e.t != nil {
-			return tuple{(*value)(nil), e}
-		}
 		t := i.namedType("database/sql", "Tx")
 		var cell value = zero(t)
 		p := &cell
 		st := i.sqlTx(p)
+		if e := i.sqlHookTx(fr, st, "begin", nil, nil); e.t != nil {
+			st.done = true
+			return tuple{(*value)(nil), e}
+		}
 		if c, ok := ctx.(iface); ok {
 			st.ctx = c
 		}
@@ -151,7 +166,7 @@ func init() {
 		if e := i.ctxErr(fr, ctx); e.t != nil {
 			return tuple{iface{}, e}
 		}
-		if e := i.sqlHook(fr, "exec", q, args); e.t != nil {
+		if e := i.sqlHookTx(fr, nil, "exec", q, args); e.t != nil {
 			return tuple{iface{}, e}
 		}
 		return tuple{i.sqlResult(), iface{}}
@@ -170,7 +185,7 @@ func init() {
 		if e := i.ctxErr(fr, ctx); e.t != nil {
 			return tuple{iface{}, e}
 		}
-		if e := i.sqlHook(fr, "tx.exec", q, args); e.t != nil {
+		if e := i.sqlHookTx(fr, i.sqlTx(p), "tx.exec", q, args); e.t != nil {
 			return tuple{iface{}, e}
 		}
 		return tuple{i.sqlResult(), iface{}}
@@ -191,7 +206,7 @@ func init() {
 			return e
 		}
 		i.sqlTx(p).done = true
-		return i.sqlHook(fr, "commit", nil, nil)
+		return i.sqlHookTx(fr, i.sqlTx(p), "commit", nil, nil)
 	}
 	externals["(*database/sql.Tx).Rollback"] = func(fr *frame, a []value) value {
 		i := fr.i
@@ -204,7 +219,11 @@ func init() {
 			return i.errTxDone()
 		}
 		st.done = true
-		return i.sqlHook(fr, "rollback", nil, nil)
+		return i.sqlHookTx(fr, st, "rollback", nil, nil)
+	}
+	externals[zzPkg+"SQLTx"] = func(fr *frame, a []value) value {
+		n, _ := fr.i.side["sqlcur"].(int)
+		return n
 	}
 }
 
